@@ -344,7 +344,7 @@ impl<B: MysqlShim<RW>, RW: Read + Write> MysqlIntermediary<B, RW> {
 
             auth_context.username = handshake.username.map(|x| x.to_vec());
 
-            self.rw.set_seq(seq + 1);
+            self.rw.set_seq(seq.wrapping_add(1));
 
             #[cfg(not(feature = "tls"))]
             if handshake.capabilities.contains(CapabilityFlags::CLIENT_SSL) {
@@ -403,7 +403,7 @@ impl<B: MysqlShim<RW>, RW: Read + Write> MysqlIntermediary<B, RW> {
 
                 auth_context.username = handshake.username.map(|x| x.to_vec());
 
-                self.rw.set_seq(seq + 1);
+                self.rw.set_seq(seq.wrapping_add(1));
 
                 auth_context.tls_client_certs = self.rw.tls_certs();
             }
@@ -430,7 +430,7 @@ impl<B: MysqlShim<RW>, RW: Read + Write> MysqlIntermediary<B, RW> {
 
         let mut stmts: HashMap<u32, _> = HashMap::new();
         while let Some((seq, packet)) = self.rw.next()? {
-            self.rw.set_seq(seq + 1);
+            self.rw.set_seq(seq.wrapping_add(1));
             let cmd = commands::parse(&packet).unwrap().1;
             match cmd {
                 Command::Query(q) => {
